@@ -8,11 +8,23 @@
 #include "rows_gen.h"
 
 static int g_thorough;
+static int g_lite;
+static int g_off = -1;      /* C15: >= 0 places every PDU at a 16-byte boundary + g_off (always with a trailing canary) */
 static int g_slice = 0, g_nslices = 1;
 static uint64_t g_unit;
 static int my_unit(void) { return (int)(g_unit++ % (uint64_t)g_nslices) == g_slice; }
 static Guarded gA, gB, gC;      /* message, source, destination */
-static char cs[200];            /* lazy case string buffer (see SETCS) */
+static char cs[200];
+/* where a message of `total` bytes goes: flush against the guard page (tail 0), before `*tail` canary bytes,
+ * or - under --off - at the requested residue mod 16 */
+static uint8_t* place_msg(Guarded* g, int total, int* tail)
+{
+    if (g_off < 0) return g->hi - total - *tail;
+    uintptr_t m = ((uintptr_t)(g->hi - total - 64 - 16)) & ~(uintptr_t)15;
+    m += (uintptr_t)g_off;
+    *tail = (int)(g->hi - (uint8_t*)m - total);
+    return (uint8_t*)m;
+}            /* lazy case string buffer (see SETCS) */
 
 static int fmt_index(const char* name)
 {
@@ -59,11 +71,11 @@ static void c06_case(int packed, int len, int idi)
     int total = hdr + len + pad;
     uint32_t id = c06_id(idi);
     int tail = placement ? 64 : 0;
-    uint8_t* msg = gA.hi - total - tail;
+    uint8_t* msg = place_msg(&gA, total, &tail);
     uint8_t* pre = msg - 16;
     uint8_t* src = gB.hi - len;                 /* payload source: exact extent */
     uint8_t fillb = fill ? 0xA5 : 0xFF;
-    static uint8_t exp[16 + 24 + 2100 + 64];
+    static uint8_t exp[16 + 24 + 2100 + 96];
     for (int i = 0; i < 16; i++) pre[i] = (uint8_t)(0x3C + i);
     /* prior header */
     switch (prior) {
@@ -133,9 +145,11 @@ static void suite_c06(void)
         int brief = packed & 1;
         int maxlen = brief ? maxlen_brief : maxlen_full;
         for (int len = 0; len <= maxlen; len++) {
+            if (g_lite && ((packed >> 4) & 3) > 1) break;
             if (len > 72 && (packed >> 4) != 0 && (len % 61) != 0) continue;   /* long lengths: all of them for pattern 0/prior 0/fill 0, a stride otherwise */
             for (int idi = 0; idi < C06_NIDS; idi++) {
                 if (len > 72 && idi >= 8) break;
+                if (g_lite && idi >= 8 && (idi & 7) != (len & 7)) continue;
                 c06_case(packed, len, idi);
             }
         }
@@ -152,9 +166,9 @@ static void c09_case(int len, int prior, int placement)
     int fmt = fmt_index("Vss");
     int pad = (4 - len % 4) % 4, total = len + pad;
     int tail = placement ? 64 : 0;
-    uint8_t* msg = gA.hi - total - tail;
+    uint8_t* msg = place_msg(&gA, total, &tail);
     uint8_t* pre = msg - 16;
-    static uint8_t exp[16 + 2100 + 64];
+    static uint8_t exp[16 + 2100 + 96];
     uint8_t pb = prior == 0 ? 0x00 : prior == 1 ? 0xFF : 0xA5;
     for (int i = 0; i < 16; i++) pre[i] = (uint8_t)(0x3C + i);
     memset(msg, pb, (size_t)(total + tail));
@@ -190,6 +204,7 @@ static void suite_c09(void)
 {
     for (int len = 12; len <= 2044; len++) {
         if (!my_unit()) continue;
+        if (g_lite && len > 80 && len % 37 > 3) continue;
         for (int prior = 0; prior < 4; prior++) for (int placement = 0; placement < 2; placement++) c09_case(len, prior, placement);
     }
     /* the dedicated length accessors carry every 9-bit value */
@@ -311,7 +326,8 @@ int main(int argc, char** argv)
     const char* suite = "", *csarg = NULL;
     for (int i = 1; i < argc; i++) {
         if (!strcmp(argv[i], "--suite")) suite = argv[++i];
-        else if (!strcmp(argv[i], "--tier")) g_thorough = !strcmp(argv[++i], "thorough");
+        else if (!strcmp(argv[i], "--tier")) { i++; g_thorough = !strcmp(argv[i], "thorough"); g_lite = !strcmp(argv[i], "lite"); }
+        else if (!strcmp(argv[i], "--off")) g_off = atoi(argv[++i]) & 15;
         else if (!strcmp(argv[i], "--slice")) sscanf(argv[++i], "%d/%d", &g_slice, &g_nslices);
         else if (!strcmp(argv[i], "--case")) csarg = argv[++i];
     }
